@@ -436,6 +436,35 @@ let register (reg : string -> (Sx.t list -> Sx.t) -> unit) : unit =
          | None -> Y "failed"
          | Some (_, s) -> L [wr_nat s.RefreshChain.t_access; wr_nat s.RefreshChain.t_refresh])
       | _ -> raise (Bad "refresh_chain_tokens arity"));
+  (* ---- providers outside the OIDC family: login and validation as functions of the endpoints' answers ---- *)
+  reg "generic_login" (function
+      | [code; tt; ts; tb; pt; ps; email] ->
+        let rd_body = (function
+            | L [Y "json"; a] -> GenericProvider.TJson (rd_opt rd_str a)
+            | L [Y "form"; a] -> GenericProvider.TForm (rd_opt rd_str a)
+            | Y "unparsable" -> GenericProvider.TUnparsable
+            | v -> raise (Bad ("bad token body " ^ to_string v))) in
+        let rt = { GenericProvider.rp_transport_ok = rd_bool tt; rp_status = rd_z ts } in
+        let rp = { GenericProvider.rp_transport_ok = rd_bool pt; rp_status = rd_z ps } in
+        wr_bool (GenericProvider.generic_login (rd_str code) rt (rd_body tb) rp (rd_opt rd_str email) <> None)
+      | _ -> raise (Bad "generic_login arity"));
+  reg "generic_validate" (function
+      | [tok; tt; ts] ->
+        wr_bool (GenericProvider.generic_validate (rd_str tok) { GenericProvider.rp_transport_ok = rd_bool tt; rp_status = rd_z ts })
+      | _ -> raise (Bad "generic_validate arity"));
+  (* ---- the legacy header flags converted into header lists ---- *)
+  reg "legacy_headers" (function
+      | [pba; pat; puh; paz; sba; sxa; saz; pref; strip; pw] ->
+        let l = { LegacyHeaders.l_pass_basic_auth = rd_bool pba; l_pass_access_token = rd_bool pat; l_pass_user_headers = rd_bool puh;
+                  l_pass_authorization = rd_bool paz; l_set_basic_auth = rd_bool sba; l_set_xauthrequest = rd_bool sxa;
+                  l_set_authorization = rd_bool saz; l_prefer_email_to_user = rd_bool pref; l_skip_auth_strip_headers = rd_bool strip;
+                  l_basic_auth_password = rd_str pw } in
+        let wr_val = (function
+            | Headers.SecretV x -> L [Y "secret"; wr_str x]
+            | Headers.ClaimV (c, p, b) -> L [Y "claim"; wr_str c; wr_str p; wr_opt wr_str b]) in
+        let wr_entry (h : Headers.hentry) = L [wr_str h.Headers.h_name; wr_bool h.Headers.h_preserve; wr_list wr_val h.Headers.h_values] in
+        L [wr_list wr_entry (LegacyHeaders.legacy_request_headers l); wr_list wr_entry (LegacyHeaders.legacy_response_headers l)]
+      | _ -> raise (Bad "legacy_headers arity"));
   (* ---- Proxy ---- *)
   reg "proxy_serve" (function
       | [ep; skipb; fjson; bypass; domains; groups; bearer; basic; stored; ajax; api; vg; ve; clearfails] ->
